@@ -1637,6 +1637,8 @@ func (mgr *Manager) convertStreamJob(allConverters []*converters.CachedConverter
 				if tag.features.MainFeatures&query.FeatureFilterData == 0 && tag.features.SubQueryFeatures&query.FeatureFilterData == 0 {
 					continue
 				}
+				// a running tagging job shares the bitmask's memory, don't modify it in place
+				tag.Uncertain = tag.Uncertain.Copy()
 				tag.Uncertain.Or(*allStreamIDs[i])
 			}
 			mgr.updatedStreamsDuringTaggingJob.Or(*allStreamIDs[i])
